@@ -55,6 +55,8 @@ def generate(rng, tier):
         k = rng.choice([31, 32, 33, 34, 64, 65, 100, 257, 1000])
         body = "".join(rng.choice(["&", "<", ">", '"', "'", "&amp;", "a", " ", "<b>", "x=\"1\""]) for _ in range(k))
         cases.append({"kind": "x", "s": rng.choice(["&" * k, "<" * k, body, body, "'" * k + "&"]), "family": "xml/many-specials/%d" % k})
+    for c in cases:
+        if c["kind"] == "x" and "via" not in c and rng.random() < 0.1: c["precall"] = True; c["family"] += "/after-saxutils-style-call"
     bounds = [9.9995, 9.9994999, 10.0, 59.5, 60.5, 59.4999, 3599.5, 3600.5, 3599.4999, 35999.5, 0.0005, 0.0015, 0.0025, 1e7, 9.9996, 61.5, 119.5, 7199.5]
     for _ in range(nh):
         r = rng.random()
@@ -88,7 +90,18 @@ def _lx(esc):
     sq = etree.fromstring(("<r a='%s'/>" % esc).encode("utf-8")).get("a")
     return c, dq, sq
 
+def _saxutils_style_precall(c):
+    """an application (or a library next to this one) may call the function the way xml.sax.saxutils.escape is called, with a dictionary of
+    further replacements; where the function does not take one the call is a TypeError and nothing happened; either way, the ordinary
+    one-argument call judged afterwards is what the property is about"""
+    extras = [{" ": "&nbsp;"}, {"a": "&auml;"}, {"\u00a0": "&nbsp;", "-": "&ndash;"}][len(c["s"]) % 3]
+    for call in (lambda: text_utils.xml_escape("x y", extras), lambda: text_utils.xml_escape("x y", entities=extras)):
+        try: call()
+        except Exception: pass
+
 def run_impl(c):
+    if c["kind"] == "x" and c.get("precall"):
+        _saxutils_style_precall(c)
     if c["kind"] == "x":
         arg = c["s"]
         if "via" in c:
